@@ -17,6 +17,14 @@ META = {
                 text="scores1^H scores2/(n-1) = diag(sigma), sigma descending >= 0, norms, orthonormal components, total squared covariance, transform(fit data)=scores and the Pearson-correlation clauses (self-correlation exactly one, cross-correlation = correlation of paired scores) are discharged for all shapes and both fields. Proportionality to the independently whitened cross-covariance, CCA/RDA/Complex/Hilbert variants, PCA pre-reduction, p>n and the pattern methods are evaluated on real fits (bounded).",
                 note="assumed: SVD_k (proved under C01), Whitener.fit contract (proved under C16), argsort contract, reals for floats, centred non-degenerate scores for the correlation clauses, statsmodels import stub; bounded: 60 (quick) / ~300 (thorough) real fits",
                 ref="5/C09"),
+    "C11": dict(level="proof", technique="contract-based deductive verification: real EOFRotator._fit_algorithm/_sort_by_variance/_transform_algorithm traced against the contracts of promax, Decomposer, argsort and the sign multiplier; normaliser + z3; bounded real rotators (single and cross, powers 1-4, refits) as labelled stand-in",
+                text="reconstruction invariance for every power, Varimax consequences (unitary R, orthonormal normalised scores, preserved summed explained variance), joint re-ordering of every mode-indexed result by one permutation with descending variance, sign multiplier applied to scores and components alike, transform=scores before and after compute: discharged for all shapes and both fields. The promax/varimax iteration, cross-set rotators, refit histories and the Varimax criterion are bounded runs.",
+                note="assumed: promax contract (rotated = loadings R, R invertible / unitary for power 1), SVD_k with s>0, argsort, inverse, sign multiplier; reals for floats; bounded: 60 (quick) / ~140 (thorough) real rotator fits",
+                ref="5/C11"),
+    "C04": dict(level="proof", technique="contract-based deductive verification (shared traces of EOF/CPCCA/EOFRotator fit+transform algorithms against callee contracts; normaliser + z3) plus bounded evaluation on every transform-capable class",
+                text="transform(fit matrix) = scores is discharged for EOF/ComplexEOF, the CPCCA family core and the EOF rotators (all powers, unsorted and sorted state); the preprocessing plumbing, SparsePCA, POP, cross-set rotators (all alpha, PCA on/off) and multi.CCA are evaluated on real models: values, dims, sample labels, mode order and sign.",
+                note="assumed: callee contracts as in C01/C09/C11; Preprocessor.transform(X_fit) = fitted matrix is bounded here; reals for floats; bounded: 70 (quick) / ~110 (thorough) real models",
+                ref="5/C04"),
 }
 NA_REASON = "no check registered yet in this snapshot of /verif (build in progress; see DESIGN.md section 5 for the plan)"
 
